@@ -51,7 +51,7 @@ class Spec:
 
     def strategy(self, tier):
         o = {"p_failflag": 5, "p_csum": 25, "p_always": 35, "p_ifc": 45, "p_ifcreate_raw": 10, "max_cmd_targets": 2,
-             "p_mkdir": 30,
+             "p_mkdir": 30, "p_dangling": 20,
              "weights": {"cmd": 45, "redo": 5, "mkpath": 16, "rmpath": 12, "edit": 8, "ext": 5, "failflag": 1,
                          "setdo": 3, "adddo": 1, "rmdo": 1, "rmtarget": 3, "touch": 1, "crash": 5}}
         if tier == "thorough":
